@@ -3,11 +3,14 @@
    Model: Model/Pool.v; proofs: Proofs/PoolProofs.v.
 
    Quantification: every capacity c >= 0 (MaxStreamNum, a uint32), every history h of the atomic labels
-   of Model/Pool.v — Get / Put / Write / Flush / Read / Release / Close by ANY number of callers (caller
+   of Model/Pool.v — Get / PutPrepare / PutPush / Write / Flush / Read / Release / Close by ANY number of callers (caller
    ids are arbitrary naturals), peer data (shared memory or fallback), peer close, circuit-breaker
    timer, session loss, the session's cleanup closure, the manager's pool.close() and the rebuild —
-   in every order.  Atomic labels suffice: push/pop run under the pool mutex, a popped stream is owned
-   exclusively, the flags read afterwards are monotone atomics (see the header of Model/Pool.v).
+   in every order.  GetStream is one label (push/pop run under the pool mutex, a popped stream is owned
+   exclusively, the flags read afterwards are monotone atomics).  PutBack is NOT atomic: PutPrepare is its
+   work on the stream (reset, ReleaseReadAndReuse) during which the caller still HOLDS the stream, PutPush
+   the final hand-over (push or Close); C15_ring therefore covers the putting goroutine until its last step,
+   and an implementation that pushes before it has finished with the stream is not a run of this model.
 
    [init f g c]: the two switches of the model.  Which variant /repo is, is translated from
    session_manager.go / stream.go on every run into Gen/SwitchC15.v:
@@ -35,6 +38,15 @@ Theorem C15_ring : forall f g c h, 0 <= c ->
                slots s (i mod cap s) = slots s (j mod cap s) -> i = j).
 Proof. exact ring_thm. Qed.
 Print Assumptions C15_ring.
+
+(* PutBack is not atomic: between its work on the stream and the final push the stream is still held by
+   the putting caller (hence, by C15_ring, by nobody else) and it is not in the ring, so no GetStream can
+   return it before PutBack's last step *)
+Theorem C15_put_exclusive : forall f g c h x, 0 <= c ->
+  let s := run (init f g c) h in
+  prepared s x -> (exists cl, holder s cl x) /\ ~ pooled s x.
+Proof. exact put_exclusive_thm. Qed.
+Print Assumptions C15_put_exclusive.
 
 (* GetActiveStreamCount counts exactly the streams of the session that have not been closed *)
 Theorem C15_table : forall f g c h, 0 <= c ->
@@ -89,7 +101,7 @@ Print Assumptions C15_clean_refuted.
 (* the pending clause holds in every history in which the peer sends nothing to a stream while it is
    pooled *)
 Theorem C15_partial_no_pending : forall f g c h cl s' x, 0 <= c ->
-  guarded (fun s l => match l with PeerData x _ _ => ~ pooled s x | _ => True end) (init f g c) h ->
+  guarded (fun s l => match l with PeerData x _ _ => ~ (pooled s x \/ prepared s x) | _ => True end) (init f g c) h ->
   step (run (init f g c) h) (Get cl) = (s', RGot x) -> pend (streams s' x) = [].
 Proof. exact partial_pend_thm. Qed.
 Print Assumptions C15_partial_no_pending.
@@ -97,7 +109,7 @@ Print Assumptions C15_partial_no_pending.
 (* the two repaired clauses for EITHER variant of the code, with the hypothesis the old code needs *)
 Theorem C15_clean_buffers_either_variant : forall f g c h cl s' x, 0 <= c ->
   guarded (fun s l => match l with
-                      | Put c x => fy s = true \/ (holds c x s = true -> sumz (sbuf (streams s x)) = 0)
+                      | PutPrepare c x => fy s = true \/ (owns c x s = true -> sumz (sbuf (streams s x)) = 0)
                       | _ => True
                       end) (init f g c) h ->
   step (run (init f g c) h) (Get cl) = (s', RGot x) ->
@@ -106,7 +118,7 @@ Proof. exact clean_bytes_thm. Qed.
 Print Assumptions C15_clean_buffers_either_variant.
 
 Theorem C15_no_leak_either_variant : forall f g c h, 0 <= c ->
-  guarded (fun s l => fx s = true \/ match l with PeerClose x => ~ pooled s x | _ => True end) (init f g c) h ->
+  guarded (fun s l => fx s = true \/ match l with PeerClose x => ~ (pooled s x \/ prepared s x) | _ => True end) (init f g c) h ->
   let s := run (init f g c) h in
   forall k x, shut (sessions s k) = false ->
     (In x (table (sessions s k)) <->
@@ -117,9 +129,9 @@ Print Assumptions C15_no_leak_either_variant.
 (* non-vacuity: capacity 1, three callers, ring wrap-around and overflow, a dirty put-back, a
    fallback stream, session loss and rebuild *)
 Example C15_example_run :
-  let h := [Get 0; Get 1; Put 0 0; Put 1 1; Get 2; Put 2 0; Get 0; Write 0 0 7 false; Flush 0 0;
-            PeerData 0 9 false; Put 0 0; Get 1; Write 1 2 3 true; Flush 1 2; Heal; Put 1 2;
-            Get 0; SessLoss; SessCleanup 0; BgPop; Rebuild; Put 0 3; Get 2]%nat in
+  let h := [Get 0; Get 1; PutPrepare 0 0; PutPush 0 0; PutPrepare 1 1; PutPush 1 1; Get 2; PutPrepare 2 0; PutPush 2 0; Get 0; Write 0 0 7 false; Flush 0 0;
+            PeerData 0 9 false; PutPrepare 0 0; PutPush 0 0; Get 1; Write 1 2 3 true; Flush 1 2; Heal; PutPrepare 1 2; PutPush 1 2;
+            Get 0; SessLoss; SessCleanup 0; BgPop; Rebuild; PutPrepare 0 3; PutPush 0 3; Get 2]%nat in
   let s := run (current 1) h in
   (head s, tail s, cur s, nstreams s, held s) = (2, 2, 1%nat, 5%nat, [(2, 4)]%nat) /\
   map (fun x => sstate_code (sst (streams s x))) (seq 0 5) = [1; 1; 1; 1; 0] /\
